@@ -642,7 +642,7 @@ def cmp_(tier, seed, params):
 
 
 FILL_NS = list(range(0, 65)) + [96, 127, 128, 129, 255, 256, 257, 511, 512, 513, 1000, 1023, 1024]
-FILL_KINDS = ["u8", "u64", "b3", "slot", "nest"]
+FILL_KINDS = ["u8", "u64", "b3", "p2", "slot", "nest"]
 
 
 def fill(tier, seed, params):
@@ -810,6 +810,9 @@ def types(tier, seed, params):
             for form in ("eq", "partial_cmp", "cmp", "from_array", "into_array", "from_native", "into_native", "ref_native", "mutref_native",
                          "asref_native", "asmut_native", "from_chunks", "from_chunks_mut", "into_chunks", "into_chunks_mut"):
                 out.append("op=len form=%s a=%d b=%d ann=infer" % (form, a, b))
+            if a != b:
+                for form in ("eq_native", "eq_native_rev", "eq_native_ref", "lt_native"):
+                    out.append("op=len form=%s a=%d b=%d ann=infer" % (form, a, b))
     for a in list(range(0, 14)):
         for b in sorted(set([a - 1, a, a + 1, 0, 12, 13])):
             if b < 0:
@@ -833,7 +836,7 @@ def types(tier, seed, params):
 def filldefault(tier, seed, params):
     out = []
     for kind in FILL_KINDS:
-        ns = FILL_NS if (kind in ("u8", "slot") or tier == "thorough") else [0, 1, 2, 3, 4, 5, 7, 8, 15, 16, 17, 31, 32, 33, 63, 64, 127, 128, 129, 1023, 1024]
+        ns = FILL_NS if (kind in ("u8", "slot", "p2") or tier == "thorough") else [0, 1, 2, 3, 4, 5, 7, 8, 15, 16, 17, 31, 32, 33, 63, 64, 127, 128, 129, 1023, 1024]
         for n in ns:
             out.append("op=const_item kind=%s n=%d" % (kind, n))
     # very long arrays (typenum names 2^k and 10^k): the structural constant needs O(log N) evaluation steps
